@@ -418,11 +418,25 @@ theorem sliceAssign_ok (ld sl : List Nat) (N k : Nat) (hk : k ≤ N) (hb : bcast
     sliceAssign (ld ++ [N]) k (sl ++ [k]) = .ok () := by
   simp [sliceAssign, sliceShape, Nat.min_eq_left hk, hb]
 
-theorem addCore_ok (self m1 m2 : Obj) (ld : List Nat) (hb : bcast m1.lead m2.lead = some ld)
-    (w1 : WellFormed m1) (w2 : WellFormed m2) :
-    addCore self m1 m2 none
-      = .modes ⟨⟨m1.md.spin, max m1.md.ellMax m2.md.ellMax, self.md.trunc⟩, ld,
-          (Ysize 0 (max m1.md.ellMax m2.md.ellMax)).toNat⟩ none := by
+theorem resultShape_ok (shape : List Nat) (out : Option Operand) (h : outShapeOk shape out = true) :
+    resultShape shape out = shape := by
+  cases out with
+  | none => rfl
+  | some o => simpa [outShapeOk, resultShape] using h
+
+/-- the Modes result `o` together with the metadata written to a Modes held in `out` -/
+theorem withOut_modes (out : Option Operand) (m : Meta) (o : Obj) :
+    withOut out m (.modes o none) = .modes o (match out with
+      | some (.modes _) => some m
+      | _ => none) := rfl
+
+theorem addCore_ok (self m1 m2 : Obj) (ld : List Nat) (out : Option Operand) (hb : bcast m1.lead m2.lead = some ld)
+    (w1 : WellFormed m1) (w2 : WellFormed m2)
+    (ho : outShapeOk (ld ++ [(Ysize 0 (max m1.md.ellMax m2.md.ellMax)).toNat]) out = true) :
+    addCore self m1 m2 out
+      = withOut out ⟨m1.md.spin, max m1.md.ellMax m2.md.ellMax, self.md.trunc⟩
+          (.modes ⟨⟨m1.md.spin, max m1.md.ellMax m2.md.ellMax, self.md.trunc⟩, ld,
+            (Ysize 0 (max m1.md.ellMax m2.md.ellMax)).toNat⟩ none) := by
   obtain ⟨h1, l1⟩ := w1
   obtain ⟨h2, l2⟩ := w2
   have b := bcastTo_of_bcast hb
@@ -431,12 +445,17 @@ theorem addCore_ok (self m1 m2 : Obj) (ld : List Nat) (hb : bcast m1.lead m2.lea
   have s2 := sliceAssign_ok ld m2.lead (Ysize 0 (max m1.md.ellMax m2.md.ellMax)).toNat m2.n
     (by rw [h2]; exact ysize0_mono l2 (le_max_right _ _)) (b m2.n).2
   unfold addCore
-  simp only [hb, resultShape]
+  simp only [hb, ho, resultShape_ok _ _ ho, Bool.not_true, Bool.false_eq_true, if_false]
   rw [← h1, ← h2]
   unfold Obj.shape
   rw [s1, s2]
-  simp only [withOut]
+  simp only
   rw [construct_ok _ _ _ (ysize0_cast _)]
+
+theorem addCore_badout (self m1 m2 : Obj) (ld : List Nat) (out : Option Operand) (hb : bcast m1.lead m2.lead = some ld)
+    (ho : outShapeOk (ld ++ [(Ysize 0 (max m1.md.ellMax m2.md.ellMax)).toNat]) out = false) :
+    addCore self m1 m2 out = .err .valueError := by
+  simp [addCore, hb, ho]
 
 theorem addCore_nobcast (self m1 m2 : Obj) (out : Option Operand) (hb : bcast m1.lead m2.lead = none) :
     addCore self m1 m2 out = .err .valueError := by
@@ -956,15 +975,22 @@ theorem bcast_snoc_one (a b : List Nat) (x : Nat) : bcast (a ++ [x]) (b ++ [1]) 
     bcastRev, hb]
   cases bcastRev a.reverse b.reverse <;> simp
 
-theorem mulCore_ok (self m1 m2 : Obj) (t : Option Trunc) (ld : List Nat) (hb : bcast m1.lead m2.lead = some ld) :
-    mulCore self m1 m2 t none
-      = .modes ⟨⟨m1.md.spin + m2.md.spin, productEllMax m1 m2 t, self.md.trunc⟩, ld,
-          (Ysize 0 (productEllMax m1 m2 t)).toNat⟩ none := by
+theorem mulCore_ok (self m1 m2 : Obj) (t : Option Trunc) (ld : List Nat) (out : Option Operand)
+    (hb : bcast m1.lead m2.lead = some ld)
+    (ho : outShapeOk (ld ++ [(Ysize 0 (productEllMax m1 m2 t)).toNat]) out = true) :
+    mulCore self m1 m2 t out
+      = withOut out ⟨m1.md.spin + m2.md.spin, productEllMax m1 m2 t, self.md.trunc⟩
+          (.modes ⟨⟨m1.md.spin + m2.md.spin, productEllMax m1 m2 t, self.md.trunc⟩, ld,
+            (Ysize 0 (productEllMax m1 m2 t)).toNat⟩ none) := by
   unfold mulCore
-  simp only [hb, resultShape, List.reverse_append, List.reverse_cons, List.reverse_nil, List.nil_append,
-    List.singleton_append, List.reverse_reverse, bcastTo_self, Nat.lt_irrefl, Bool.not_true, Bool.false_eq_true,
-    or_self, if_false, withOut]
+  simp only [hb, ho, resultShape_ok _ _ ho, Bool.not_true, Bool.false_eq_true, if_false]
   rw [construct_ok _ _ _ (ysize0_cast _)]
+
+theorem mulCore_badout (self m1 m2 : Obj) (t : Option Trunc) (ld : List Nat) (out : Option Operand)
+    (hb : bcast m1.lead m2.lead = some ld)
+    (ho : outShapeOk (ld ++ [(Ysize 0 (productEllMax m1 m2 t)).toNat]) out = false) :
+    mulCore self m1 m2 t out = .err .valueError := by
+  simp [mulCore, hb, ho]
 
 theorem mulCore_nobcast (self m1 m2 : Obj) (t : Option Trunc) (out : Option Operand)
     (hb : bcast m1.lead m2.lead = none) : mulCore self m1 m2 t out = .err .valueError := by
@@ -1315,16 +1341,97 @@ theorem pickle_spec (h : Heap) (obj : PyObj) (hl : h.Live obj) :
   · intro i hi
     rw [b11 i (by omega), a11 i (by omega), h1v]
 
-theorem finalize_route_eq (r : Route) (hr : ∀ p, r ≠ .pickle p) (h : Heap) (obj : PyObj) :
+/-- everything `Modes.__deepcopy__` guarantees (same shape as `pickle_spec`) -/
+theorem deepcopy_spec (h : Heap) (obj : PyObj) (hl : h.Live obj) :
+    (deepCopyHook h obj).2 = ⟨.modes, h.nextBuf, h.nextDict + 1⟩
+    ∧ (deepCopyHook h obj).1.bufs h.nextBuf = h.bufs obj.buf
+    ∧ (∀ i, i ≠ h.nextBuf → (deepCopyHook h obj).1.bufs i = h.bufs i)
+    ∧ (∀ i, i < h.nextDict → (deepCopyHook h obj).1.dicts i = h.dicts i)
+    ∧ ((deepCopyHook h obj).1.dicts (h.nextDict + 1)).map (·.1) = (h.dicts obj.dict).map (·.1)
+    ∧ (∀ k v, h.lookup obj.dict k = some v → ∃ v', (deepCopyHook h obj).1.lookup (h.nextDict + 1) k = some v'
+          ∧ DeepRel h v (deepCopyHook h obj).1 v')
+    ∧ (∀ k id, (k, Val.ref id) ∈ (deepCopyHook h obj).1.dicts (h.nextDict + 1) → h.nextVal ≤ id)
+    ∧ (∀ i, i < h.nextVal → (deepCopyHook h obj).1.vals i = h.vals i) := by
+  obtain ⟨hb, hd, hr⟩ := hl
+  let h1 := (h.copyBuf obj.buf).1
+  have h1b : h1.bufs h.nextBuf = h.bufs obj.buf := by simp [h1, Heap.copyBuf]
+  have h1b' : ∀ i, i ≠ h.nextBuf → h1.bufs i = h.bufs i := by intro i hi; simp [h1, Heap.copyBuf, hi]
+  -- `super().__deepcopy__`: new data, `__array_finalize__`
+  let h2 := (finalize h1 h.nextBuf obj).1
+  have hne : obj.dict ≠ h.nextDict := by omega
+  have h2d : ∀ i, i ≠ h.nextDict → h2.dicts i = h.dicts i := by
+    intro i hi
+    show (finalize h1 h.nextBuf obj).1.dicts i = _
+    rw [finalize_dicts, if_neg (show ¬ i = h1.nextDict from hi)]
+    rfl
+  have h2v : h2.vals = h.vals := rfl
+  have h2b : h2.bufs = h1.bufs := rfl
+  have h2nd : h2.nextDict = h.nextDict + 1 := rfl
+  have h2nv : h2.nextVal = h.nextVal := rfl
+  -- `copy.deepcopy(self._metadata, memo)`
+  obtain ⟨a1, a2, a3, a4, _, a6, a7, _, _, _, a11⟩ := deepCopyDict_spec h2 obj.dict
+    (by rw [h2d _ hne, h2nv]; exact hr)
+  have hobj : (deepCopyHook h obj).2 = ⟨.modes, h.nextBuf, h.nextDict + 1⟩ := by
+    show PyObj.mk Cls.modes (h.copyBuf obj.buf).2 (h2.deepCopyDict obj.dict).2 = _
+    rw [a1, h2nd]
+    rfl
+  have hheap : (deepCopyHook h obj).1 = (h2.deepCopyDict obj.dict).1 := rfl
+  rw [hheap]
+  refine ⟨hobj, ?_, ?_, ?_, ?_, ?_, ?_, ?_⟩
+  · rw [a7, h2b, h1b]
+  · intro i hi; rw [a7, h2b, h1b' i hi]
+  · intro i hi
+    rw [a2 i (by omega), h2d i (by omega)]
+  · rw [← h2nd, a3, h2d _ hne]
+  · intro k v hk
+    obtain ⟨v1, l1, r1⟩ := a4 k v (by unfold Heap.lookup at hk ⊢; rw [h2d _ hne]; exact hk)
+    refine ⟨v1, by rw [← h2nd]; exact l1, ?_⟩
+    cases v with
+    | ref id => exact r1
+    | int i => exact r1
+    | fn n => exact r1
+    | none => exact r1
+  · intro k id hm
+    rw [← h2nd] at hm
+    have := a6 k id hm
+    omega
+  · intro i hi
+    rw [a11 i (by omega), h2v]
+
+/-- the two deep routes (`copy.deepcopy`, pickle) on a Modes -/
+theorem deep_route_spec (r : Route) (hr : r.deep = true) (h : Heap) (obj : PyObj) (hc : obj.cls = .modes)
+    (hl : h.Live obj) :
+    (copyRoute r h obj).2 = ⟨.modes, h.nextBuf, h.nextDict + 1⟩
+    ∧ (copyRoute r h obj).1.bufs h.nextBuf = h.bufs obj.buf
+    ∧ (∀ i, i ≠ h.nextBuf → (copyRoute r h obj).1.bufs i = h.bufs i)
+    ∧ (∀ i, i < h.nextDict → (copyRoute r h obj).1.dicts i = h.dicts i)
+    ∧ ((copyRoute r h obj).1.dicts (h.nextDict + 1)).map (·.1) = (h.dicts obj.dict).map (·.1)
+    ∧ (∀ k v, h.lookup obj.dict k = some v → ∃ v', (copyRoute r h obj).1.lookup (h.nextDict + 1) k = some v'
+          ∧ DeepRel h v (copyRoute r h obj).1 v')
+    ∧ (∀ k id, (k, Val.ref id) ∈ (copyRoute r h obj).1.dicts (h.nextDict + 1) → h.nextVal ≤ id)
+    ∧ (∀ i, i < h.nextVal → (copyRoute r h obj).1.vals i = h.vals i) := by
+  cases r with
+  | pickle p =>
+    have e : copyRoute (.pickle p) h obj = pickleRoundTrip h obj := rfl
+    rw [e]
+    have := pickle_spec h obj hl
+    rw [hc] at this
+    exact this
+  | deepCopy => exact deepcopy_spec h obj hl
+  | copyMethod => simp [Route.deep] at hr
+  | copyCopy => simp [Route.deep] at hr
+  | npArray => simp [Route.deep] at hr
+
+theorem finalize_route_eq (r : Route) (hr : r.deep = false) (h : Heap) (obj : PyObj) :
     copyRoute r h obj = finalize (h.copyBuf obj.buf).1 h.nextBuf obj := by
   cases r with
-  | pickle p => exact absurd rfl (hr p)
+  | pickle p => simp [Route.deep] at hr
+  | deepCopy => simp [Route.deep] at hr
   | copyMethod => rfl
   | copyCopy => rfl
-  | deepCopy => rfl
   | npArray => rfl
 
-theorem finalize_route_spec (r : Route) (hr : ∀ p, r ≠ .pickle p) (h : Heap) (obj : PyObj) :
+theorem finalize_route_spec (r : Route) (hr : r.deep = false) (h : Heap) (obj : PyObj) :
     (copyRoute r h obj).2 = ⟨.modes, h.nextBuf, h.nextDict⟩
     ∧ (copyRoute r h obj).1.dicts h.nextDict = ensureKeys (h.dicts obj.dict)
     ∧ (∀ i, i ≠ h.nextDict → (copyRoute r h obj).1.dicts i = h.dicts i)
@@ -1340,5 +1447,29 @@ theorem finalize_route_spec (r : Route) (hr : ∀ p, r ≠ .pickle p) (h : Heap)
 
 theorem sameValue_refl_of_vals (h h' : Heap) (v : Val) (hv : h'.vals = h.vals) : sameValue h v h' v := by
   cases v <;> simp [sameValue, hv]
+
+/-! ### entries with `out=` -/
+
+theorem addEntries_out {β : Type} (comb : β → β → β) (zero : β) (k1 k2 : Nat) (mem : Nat → Row β)
+    (b1 b2 fresh bo : Nat) :
+    (addEntries comb zero k1 k2 mem b1 b2 fresh (some bo)).1 bo
+      = (addEntries comb zero k1 k2 mem b1 b2 fresh none).1 fresh
+    ∧ (addEntries comb zero k1 k2 mem b1 b2 fresh (some bo)).2 = bo
+    ∧ ∀ i, i ≠ bo → (addEntries comb zero k1 k2 mem b1 b2 fresh (some bo)).1 i = mem i := by
+  refine ⟨?_, rfl, ?_⟩
+  · simp [addEntries]
+  · intro i hi
+    simp [addEntries, hi]
+
+theorem mulEntries_out {β : Type} (add : β → β → β) (val : (Nat → β) → (Nat → β) → Term → β) (zero : β)
+    (L1 L2 L : Int) (mem : Nat → Row β) (b1 b2 fresh bo : Nat) :
+    (mulEntries add val zero L1 L2 L mem b1 b2 fresh (some bo)).1 bo
+      = (mulEntries add val zero L1 L2 L mem b1 b2 fresh none).1 fresh
+    ∧ (mulEntries add val zero L1 L2 L mem b1 b2 fresh (some bo)).2 = bo
+    ∧ ∀ i, i ≠ bo → (mulEntries add val zero L1 L2 L mem b1 b2 fresh (some bo)).1 i = mem i := by
+  refine ⟨?_, rfl, ?_⟩
+  · simp [mulEntries]
+  · intro i hi
+    simp [mulEntries, hi]
 
 end Lemmas.Modes
